@@ -207,10 +207,18 @@ class FixedMarginBusiness(Sector):
                              '%0.3f * %s' % (wage_share, market_sup_good))
             self.SetEquationRightHandSide('PROF', '%0.3f * %s' % (self.ProfitMargin, market_sup_good))
         for s in self.Parent.SectorList:
+            if isinstance(s, FixedMarginBusiness):
+                # Another business that pays dividends has a DIV variable as well; it is not the recipient.
+                continue
             if 'DIV' in s.EquationBlock.Equations:
                 Logger('Adding dividend flow', priority=5)
                 self.AddCashFlow('-DIV', 'PROF', 'Dividends paid', is_income=False)
-                s.AddCashFlow('DIV', self.GetVariableName('PROF'), 'Dividends received', is_income=True)
+                if s.EquationBlock['DIV'].RHS() in ('', '0.0'):
+                    s.AddCashFlow('DIV', self.GetVariableName('PROF'), 'Dividends received', is_income=True)
+                else:
+                    # The recipient already receives the dividends of another business: still one DIV
+                    # flow in its ledger, which is the sum of the profits paid out.
+                    s.AddTermToEquation('DIV', self.GetVariableName('PROF'))
                 break
 
 
